@@ -98,7 +98,8 @@ func c04CheckTyped(x *core.Ctx, c *core.Case) {
 	n, _ := strconv.Atoi(c.Get("n"))
 	var srcs []*ast.Source
 	for j := 0; j < n; j++ {
-		srcs = append(srcs, &ast.Source{Name: fmt.Sprintf("part%d.graphql", j), Input: c.Get(fmt.Sprintf("src%d", j))})
+		// some user sources are flagged built-in (plugins do that): positions and file names must not change
+		srcs = append(srcs, &ast.Source{Name: fmt.Sprintf("part%d.graphql", j), Input: c.Get(fmt.Sprintf("src%d", j)), BuiltIn: (len(c.Get("src0"))+j)%3 == 0})
 	}
 	pc := newPosChecker(x, append([]*ast.Source{validator.Prelude}, srcs...)...)
 	for _, s := range srcs {
